@@ -46,6 +46,8 @@ type FaultCase struct {
 	// SrcData: the failing Read also delivers the bytes up to the fault position (n > 0 together with err).
 	SrcErr  string `json:"src_err,omitempty"`
 	SrcData bool   `json:"src_data,omitempty"`
+	// Linger: milliseconds the caller's source stalls right after the context was cancelled (fault "cancel").
+	Linger int `json:"linger,omitempty"`
 }
 
 var errSource = errors.New("injected source reader failure")
@@ -61,6 +63,7 @@ type faultReader struct {
 	err     error // what the failing Read returns (nil = errSource)
 	withDat bool  // the failing Read delivers the last bytes before pos together with the error
 	cancel  context.CancelFunc
+	linger  time.Duration // how long the source stalls right after the cancellation (whatever reacts to it asynchronously gets its chance)
 	fired   *atomic.Int64
 }
 
@@ -93,6 +96,9 @@ func (f *faultReader) Read(p []byte) (int, error) {
 		f.fired.Add(1)
 		f.cancel()
 		f.cancel = nil
+		if f.linger > 0 {
+			time.Sleep(f.linger)
+		}
 	}
 	if f.off >= len(f.b) {
 		return 0, io.EOF
@@ -267,6 +273,7 @@ func ExecC10(fc FaultCase) *ev.Result {
 		fr.fail, fr.err, fr.withDat = true, sourceError(fc.SrcErr), fc.SrcData
 	case "cancel":
 		fr.cancel = cancel
+		fr.linger = time.Duration(fc.Linger) * time.Millisecond
 	}
 	var target fs_db.Store = w.DB
 	var tx fs_db.Tx
